@@ -460,7 +460,7 @@ def gen_render_case(rng, exact=None):
             if o[2]["t"] == "node":
                 ops.append(o)
     case.update({"kw": kw, "ops": ops, "exact": exact,
-                 "route": rng.choice(["own", "own", "arg"] if exact else ["own", "arg", "list"]),
+                 "route": rng.choice(["own", "own", "arg"] if exact else ["own", "arg", "list", "frames"]),
                  "limits": None if rng.random() < 0.7 else [-10, 40, -10, 25],
                  "focus": (not exact) and rng.random() < 0.15})
     return case
@@ -524,25 +524,57 @@ def run_render_case(case):
             if case.get("focus"):
                 dyn = [o for o in sc.obstacles if isinstance(o, DynamicObstacle)]
                 focus = dyn[0] if dyn else None
-            own = case["route"] == "own"
+            own = case["route"] in ("own", "frames")
             rnd = MPRenderer(draw_params=p if own else None, ax=ax, plot_limits=case.get("limits"), focus_obstacle=focus)
             arg = None if own else p
-            if case["route"] == "list":
+            stale = None
+            if case["route"] == "frames":
+                # the per-frame sequence of create_video, by hand: an earlier frame (window moved by one step), then
+                # the frame of the case; what is left on the axes must be the shapes collected for the last frame
+                import copy as _copy
+                p_a = _copy.deepcopy(p)
+                p_a.time_begin = p_a.time_begin + 1
+                rnd.draw_list([sc, pps], p_a)
+                rnd.render_static()
+                static_ids = {id(c) for c in ax.collections}
+                for frame_params in (p_a, p):
+                    rnd.remove_dynamic()
+                    rnd.clear()
+                    rnd.draw_list([sc, pps], frame_params)
+                    if frame_params is p:
+                        n_pat, n_col, n_art = len(rnd.obstacle_patches), len(rnd.static_collections), 0
+                        patches = list(rnd.obstacle_patches)
+                        colls = list(rnd.static_collections)
+                        annots = [a for a in rnd.static_artists if isinstance(a, mtext.Annotation)]
+                    phase = "render"
+                    rnd.render_dynamic()
+                on_axes = sum(len(c.get_paths()) for c in ax.collections
+                              if type(c) is mcoll.PatchCollection and id(c) not in static_ids)
+                if on_axes != len(patches):
+                    stale = (on_axes, len(patches))
+            elif case["route"] == "list":
                 rnd.draw_list([sc, pps], arg)
                 n_pat, n_col, n_art = len(rnd.obstacle_patches), len(rnd.static_collections), 0
             else:
                 sc.draw(rnd, arg)
                 n_pat, n_col, n_art = len(rnd.obstacle_patches), len(rnd.static_collections), len(rnd.static_artists)
                 pps.draw(rnd, arg)
-            patches = list(rnd.obstacle_patches[:n_pat])
-            colls = list(rnd.static_collections[:n_col])
-            annots = [a for a in rnd.static_artists[n_art:] if isinstance(a, mtext.Annotation)]
+            if case["route"] != "frames":
+                patches = list(rnd.obstacle_patches[:n_pat])
+                colls = list(rnd.static_collections[:n_col])
+                annots = [a for a in rnd.static_artists[n_art:] if isinstance(a, mtext.Annotation)]
             signs = len(rnd.traffic_signs)
             phase = "render"
-            rnd.render()
+            if case["route"] != "frames":
+                rnd.render()
             if signs == 0:
                 phase = "raster"
                 fig.canvas.draw()
+            if stale is not None:
+                return (("frames:shapes of an earlier frame stay on the axes",
+                         f"after the per-frame sequence remove_dynamic / clear / draw_list / render_dynamic the axes hold "
+                         f"{stale[0]} obstacle shapes, the renderer collected {stale[1]} for this frame "
+                         f"(world {case['world']})"), None, info)
         except Exception as e:  # totality clause
             site = site_of(e)
             return ((f"total:{phase}:{type(e).__name__}:{site}",
@@ -652,7 +684,7 @@ def judge_render(case, sc, pps, p, obs_patches, obs_lanelets, obs_pps, info):
         if sorted(obs_lanelets) != want:
             return (f"sel:lanelets:{'all' if lsel is None else 'filter'}",
                     f"lanelets drawn {sorted(obs_lanelets)}, expected {want} (draw_ids={lsel})")
-    if not case["exact"] or case["route"] == "list":
+    if not case["exact"] or case["route"] in ("list", "frames"):
         return None
     required, allowed, owner = Counter(), Counter(), {}
     for o in sc.obstacles:
@@ -712,11 +744,11 @@ def gen_param_case(rng):
                 kw[k] = rand_scalar(rng, k, tag, False)
     n = rng.randint(1, 6)
     ops = [rand_op(rng, table, False, False) for _ in range(n)]
-    if rng.random() < 0.35:
-        o = rand_op(rng, table, False, True)
-        ops.append(o)
     if rng.random() < 0.45:
         ops += reassign_ops(rng, table, kw, ops)
+    if rng.random() < 0.35:     # a whole group is assigned last only (afterwards slots share one object: DESIGN 2.7)
+        o = rand_op(rng, table, False, True)
+        ops.append(o)
     ops = [o + ["item"] if rng.random() < 0.25 else o for o in ops]
     return {"k": "param", "kw": kw, "ops": ops}
 
